@@ -13,6 +13,7 @@ import (
 	"path/filepath"
 	"sort"
 	"strconv"
+	"strings"
 	"sync"
 	"time"
 )
@@ -98,6 +99,12 @@ func Start(id, level string) *Run {
 }
 
 func (r *Run) Thorough() bool { return r.Tier == "thorough" }
+
+// FirstShard is true for an unsharded run and for shard 0 of a sharded one (work that must happen once).
+func (r *Run) FirstShard() bool {
+	sp := os.Getenv("VERIF_SHARD")
+	return sp == "" || strings.HasPrefix(sp, "0/")
+}
 
 // Pick returns q in the quick tier and t in the thorough tier.
 func Pick[T any](r *Run, q, t T) T {
